@@ -141,7 +141,10 @@ def getattr(interp, obj, name):
         if name == "parent":
             interp.used_models.add("pathlib: Path.parent is an uninterpreted function of the path (directories are not part of the file map)")
             return mk_path(sym.sstr(sym.ufun("path_parent", z3.StringSort(), z3.StringSort())(zstr(obj.fields["s"]))))
-        if name in ("name", "stem", "suffix"):
+        if name == "suffix":
+            interp.used_models.add("pathlib: Path.suffix is an uninterpreted function of the path")
+            return sym.sstr(sym.ufun("path_suffix", z3.StringSort(), z3.StringSort())(zstr(obj.fields["s"])))
+        if name in ("name", "stem"):
             raise Unsupported(f"Path.{name} on symbolic path")
         if name not in obj.fields:
             from .interp import BoundM
